@@ -20,6 +20,12 @@ import re
 
 BANKS = "RCQM"
 MAX_ARRAY = 64
+# tags of the abstract gate events (the same numbers as in coq/Proofs/Bridge_Nv.v / Bridge_Sdk.v)
+QTAGS = {"init": 0, "x": 10, "y": 11, "z": 12, "h": 13, "k": 14, "s": 15, "t": 16,
+         "rot_x": 20, "rot_y": 21, "rot_z": 22, "cnot": 30, "cphase": 31}
+G1 = ["init", "x", "y", "z", "h", "k", "s", "t"]
+ROT = ["rot_x", "rot_y", "rot_z"]
+G2 = ["cnot", "cphase"]
 
 _state = {}
 
@@ -35,11 +41,14 @@ def _load():
     from netqasm.lang.subroutine import Subroutine
     from netqasm.sdk.shared_memory import SharedMemoryManager
 
+    from netqasm.lang.instr import vanilla
+
     by_mn = {}
-    for name in dir(core):
-        cls = getattr(core, name)
-        if isinstance(cls, type) and getattr(cls, "mnemonic", "") and cls.__module__ == core.__name__:
-            by_mn[cls.mnemonic] = cls
+    for mod in (core, vanilla):
+        for name in dir(mod):
+            cls = getattr(mod, name)
+            if isinstance(cls, type) and getattr(cls, "mnemonic", "") and cls.__module__ == mod.__name__:
+                by_mn[cls.mnemonic] = cls
 
     class StepLimit(Exception):
         pass
@@ -58,6 +67,8 @@ def _load():
             self._fuel = fuel
             self._calls = 0
             self.final_pc = None
+            self.events = []
+            self.script = []
 
         @property
         def node_id(self):
@@ -82,6 +93,21 @@ def _load():
                     raise TooBig()
             self._calls += 1
             return super()._execute_command(subroutine_id, command)
+
+        # extension points for quantum instructions: record the event, nothing else
+        def _do_single_qubit_instr(self, instr, subroutine_id, address):
+            self.events.append(["gate", QTAGS[instr.mnemonic], [], [address]])
+
+        def _do_single_qubit_rotation(self, instr, subroutine_id, address, angle):
+            self.events.append(["gate", QTAGS[instr.mnemonic], [instr.angle_num.value, instr.angle_denom.value], [address]])
+
+        def _do_two_qubit_instr(self, instr, subroutine_id, address1, address2):
+            self.events.append(["gate", QTAGS[instr.mnemonic], [], [address1, address2]])
+
+        def _do_meas(self, subroutine_id, q_address):
+            o = self.script.pop(0) if self.script else 0
+            self.events.append(["meas", q_address, o])
+            return o
 
         def _do_wait(self):
             # environment contract of this check: nobody else writes the arrays,
@@ -139,6 +165,12 @@ def build_instr(t):
         ops = [op.Address(t[1])]
     elif mn in ("wait_all", "wait_any"):
         ops = [op.ArraySlice(op.Address(t[1]), mk_ix(t[2]), mk_ix(t[3]))]
+    elif mn in G1:
+        ops = [mk_reg(t[1])]
+    elif mn in ROT:
+        ops = [mk_reg(t[1]), op.Immediate(t[2]), op.Immediate(t[3])]
+    elif mn in G2 or mn == "meas":
+        ops = [mk_reg(t[1]), mk_reg(t[2])]
     else:
         raise ValueError(f"unknown mnemonic {mn}")
     return cls.from_operands(ops)
@@ -197,6 +229,7 @@ def run_case(case):
     st["SMM"].reset_memories()
     ex = st["StepBoundExecutor"](case["fuel"])
     ex.init_new_application(app_id=0, max_qubits=case["cap"])
+    ex.script = list(case.get("script", []))
     results = []
     for prog in case["subs"]:
         sub = st["Subroutine"](instructions=[build_instr(t) for t in prog], app_id=0)
@@ -212,7 +245,7 @@ def run_case(case):
                 return None
             out = canon_exc(exc)
             pc = ex._program_counters.get(sid)
-        results.append(dict(out=list(out), pc=pc, state=view_state(ex)))
+        results.append(dict(out=list(out), pc=pc, state=view_state(ex), events=[list(e) for e in ex.events]))
     return results
 
 
@@ -275,6 +308,41 @@ def cq_instr(t):
     if mn == "wait_single":
         return f"IWaitSingle {cq_z(t[1])} {cq_op(t[2])}"
     raise ValueError(mn)
+
+
+def cq_qinstr(t):
+    """an instruction of a quantum case as a SemQ.qinstr"""
+    mn = t[0]
+    if mn in G1:
+        return f"QGate {QTAGS[mn]} [] [{cq_reg(t[1])}]"
+    if mn in ROT:
+        return f"QGate {QTAGS[mn]} [{cq_z(t[2])}; {cq_z(t[3])}] [{cq_reg(t[1])}]"
+    if mn in G2:
+        return f"QGate {QTAGS[mn]} [] [{cq_reg(t[1])}; {cq_reg(t[2])}]"
+    if mn == "meas":
+        return f"QMeas {cq_reg(t[1])} {cq_reg(t[2])}"
+    return f"QC ({cq_instr(t)})"
+
+
+def cq_event(e):
+    if e[0] == "gate":
+        return f"QEvGate {e[1]} {cq_list(cq_z(x) for x in e[2])} {cq_list(cq_z(x) for x in e[3])}"
+    return f"QEvMeas {cq_z(e[1])} {cq_z(e[2])}"
+
+
+def cq_qcase(case, results):
+    subs = cq_list((cq_list(cq_qinstr(t) for t in prog) for prog in case["subs"]), sep=";\n     ")
+    exp = cq_list((f"({cq_expect(r)}, {cq_list(cq_event(e) for e in r['events'])})" for r in results), sep=";\n     ")
+    script = cq_list(cq_z(x) for x in case.get("script", []))
+    return f"mkQCase {case['cap']}%nat {case['fuel']}%nat {script}\n    {subs}\n    {exp}"
+
+
+def write_qcase_file(path, coq_cases):
+    with open(path, "w") as f:
+        f.write(CASE_HEADER.replace("Exec.ExecCheck.", "Exec.SemQ Exec.ExecCheck."))
+        f.write("Definition cases : list qcase :=\n [" + ";\n  ".join(coq_cases) + "].\n")
+        f.write("Eval vm_compute in (semq_failing cases).\n")
+        f.write("Eval vm_compute in (semq_open cases).\n")
 
 
 def cq_list(items, sep="; "):
@@ -549,3 +617,46 @@ def gen_fault_case(rng, target, fuel=60):
     if rng.random() < 0.5:
         subs.append(gen_program(rng, P, 8, with_prelude=False))
     return dict(cap=cap, fuel=fuel, subs=subs, tag="aimed:" + target)
+
+
+QKINDS = ["qalloc", "qalloc", "qfree", "init", "x", "h", "z", "t", "k", "s", "y", "rot_x", "rot_y", "rot_z", "cnot", "cphase",
+          "meas", "meas", "set", "add", "store", "load", "bez", "bnz", "beq", "blt", "jmp", "ret_reg", "ret_arr"]
+
+
+def gen_qcase(rng, max_len=16, fuel=60):
+    """programs mixing classical instructions with gates, rotations, two-qubit gates and
+    measurements (scripted outcomes); the quantum extension points only record events"""
+    P = Pools(rng)
+    qregs = [r for r in P.regs if r[0] == "Q"] or ["Q0"]
+    cap = rng.choice([1, 2, 3, 5])
+    script = [rng.randint(0, 1) for _ in range(rng.randint(0, 4))]
+
+    def one(n):
+        mn = rng.choice(QKINDS)
+        q = lambda: rng.choice(qregs) if rng.random() < 0.85 else P.reg(rng)
+        if mn in G1:
+            return [mn, q()]
+        if mn in ROT:
+            return [mn, q(), rng.randint(0, 31), rng.randint(0, 5)]
+        if mn in G2:
+            return [mn, q(), q()]
+        if mn == "meas":
+            return [mn, q(), P.reg(rng)]
+        if mn in ("qalloc", "qfree"):
+            return [mn, q()]
+        return gen_instr(rng, P, n, kind=mn)
+
+    subs = []
+    for k in range(rng.choice([1, 1, 2])):
+        pre = []
+        if k == 0:
+            for r in P.regs:
+                if rng.random() < 0.85:
+                    pre.append(["set", r, rng.randint(0, cap) if r[0] == "Q" else rng.randint(0, 6)])
+            for r in qregs:
+                if rng.random() < 0.6:
+                    pre.append(["qalloc", r])
+        nbody = rng.randint(0, max_len)
+        n = len(pre) + nbody
+        subs.append(pre + [one(n) for _ in range(nbody)])
+    return dict(cap=cap, fuel=fuel, subs=subs, script=script, tag="quantum")
